@@ -58,11 +58,21 @@ void IMPORTStatement::loadModule(Context& ctx)
   }
   else
   {
-    Value& val = _exp->value(ctx);
-    if (val.isNull())
-      throw ParseError(EXC_PARSE_INV_EXPRESSION);
-    if ((type_id = PluginManager::instance().importModuleByPath(*val.literal())) == 0)
-      throw ParseError(EXC_PARSE_IMPORT_FAILED_S, val.literal()->c_str());
+    std::string path;
+    try
+    {
+      Value& val = _exp->value(ctx);
+      if (val.isNull())
+        throw ParseError(EXC_PARSE_INV_EXPRESSION);
+      path = *val.literal();
+    }
+    catch (RuntimeError& re)
+    {
+      /* the expression is evaluated while compiling: its failure is a compile error */
+      throw ParseError(EXC_PARSE_OTHER_S, re.what());
+    }
+    if ((type_id = PluginManager::instance().importModuleByPath(path)) == 0)
+      throw ParseError(EXC_PARSE_IMPORT_FAILED_S, path.c_str());
   }
   const PLUGGED_MODULE& plug = PluginManager::instance().plugged(type_id);
   DBG(DBG_DEBUG, "%s: id=%d name=%s instance=%p dlhandle=%p\n", __FUNCTION__,
